@@ -72,11 +72,12 @@ where
         result
     }
 
-    pub fn progress_to(&mut self, next: K) {
-        self.queue.progress_to(next);
+    pub fn progress_to(&mut self, next: K) -> Vec<(K, V)> {
+        let skipped = self.queue.progress_to(next);
         // Always update timeout after progress since it affects what's considered
         // "next"
         self.update_timeout();
+        skipped
     }
 
     pub fn next(&self) -> &K {
